@@ -75,13 +75,13 @@ Definition OB_PLUS0000 : bytes := [43; 48; 48; 48; 48]%N.
 Definition OB_MINUS0000 : bytes := [45; 48; 48; 48; 48]%N.
 
 (* CPython's default sys.int_max_str_digits: int(s) raises ValueError beyond it *)
-Definition INT_MAX_STR_DIGITS : nat := 4300.
+Definition INT_MAX_STR_DIGITS : N := 4300%N.
 
 (* int(s) for s a run of ASCII digits (other strings: not modelled) *)
 Definition py_int_digits (l : bytes) : result Z :=
   match parse_dec_N l with
   | None => Err EUnmodelled
-  | Some n => if (INT_MAX_STR_DIGITS <? length l)%nat then Err EValue else Ok (Z.of_N n)
+  | Some n => if (INT_MAX_STR_DIGITS <? N.of_nat (length l))%N then Err EValue else Ok (Z.of_N n)
   end.
 
 Definition is_nil {A : Type} (l : list A) : bool := match l with [] => true | _ => false end.
